@@ -17,7 +17,9 @@ var LoadYamlPreferences = YamlPreferences{
 }
 
 type loadPrefs struct {
-	decoder Decoder
+	// creates a decoder per load: one instance shared by every expression
+	// mixes up the files of evaluations that run side by side
+	decoderFactory func() Decoder
 }
 
 func loadString(filename string) (*CandidateNode, error) {
@@ -125,7 +127,7 @@ func loadOperator(d *dataTreeNavigator, context Context, expressionNode *Express
 
 		filename := nameCandidateNode.Value
 
-		contentsCandidate, err := loadWithDecoder(filename, loadPrefs.decoder)
+		contentsCandidate, err := loadWithDecoder(filename, loadPrefs.decoderFactory())
 		if err != nil {
 			return Context{}, fmt.Errorf("Failed to load %v: %w", filename, err)
 		}
